@@ -1436,6 +1436,13 @@ def explore(fn, max_paths=200000, budget_s=600.0, variables=None):
         except Unsupported as e:
             ok, info, status = None, None, "unsupported"
             inconclusive.append("unsupported: " + str(e))
+        except (KeyboardInterrupt, SystemExit, MemoryError):
+            raise
+        except Exception as e:
+            # an exception escaping the code under execution on a feasible path: a candidate violation (the replay on the
+            # real code decides whether the repository really raises there or a stand-in is at fault)
+            import traceback
+            ok, info = False, ("exception", type(e).__name__, str(e)[:200], traceback.format_exc()[-600:])
         res.paths += 1
         if status == "ok":
             reached += 1
